@@ -1,4 +1,4 @@
-from . import checks_tier, checks_tg, checks_file, checks_audio, checks_misc
+from . import checks_tier, checks_tg, checks_file, checks_audio, checks_misc, checks_query
 
 CHECKS = {}
 for _p in checks_tier.PROPS:
@@ -13,4 +13,5 @@ CHECKS["C17"] = checks_audio.check_c17
 CHECKS["C18"] = checks_audio.check_c18
 CHECKS["C19"] = checks_misc.check_c19
 CHECKS["C20"] = checks_misc.check_c20
+CHECKS["C15"] = checks_query.check_c15
 REPLAYERS = {}
